@@ -378,7 +378,24 @@ def project_default(ob):
         probes = [list(p[:4]) + ["-"] + list(p[5:]) for p in ob["probes"]]
     else:
         probes = ob["probes"]
-    return {"out": "ok", "logs": logs, "tap": tap, "probes": probes, "snaps": ob["snaps"]}
+    out = {"out": "ok", "logs": logs, "tap": tap, "probes": probes, "snaps": ob["snaps"]}
+    tops = [u for u in logs if "/" not in u]
+    if len(tops) == 1 and len(logs) > 1:
+        # ONE subscriber and the recorders of the inner observables it was handed (windows, groups): every subject involved has a single
+        # observer, so the order ACROSS these logs is determined too - e.g. a window is closed before the outer stream is
+        order, rename, nobs, nxt = [], {}, {}, 0
+        for (u, i, e) in ob["log"]:
+            u2 = rename.get(u, u)
+            order.append((u2, sx.dumps(e)))
+            if isinstance(e, list) and len(e) == 2 and e[0] == "n" and e[1] == ["obs"]:
+                k = nobs.get(u2, 0)
+                nobs[u2] = k + 1
+                rename["c%d" % nxt] = "%s/%d" % (u2, k)
+                nxt += 1
+        # (the order AMONG the inner observables - e.g. in which group_by closes its groups - is a hash order: each inner log is
+        # compared with the outer one separately)
+        out["order"] = {c: [x for x in order if x[0] in (tops[0], c)] for c in logs if "/" in c}
+    return out
 
 
 # ---------------------------------------------------------------- evidence / verdict
